@@ -403,6 +403,36 @@ def conditioning(V, offset=None):
     return max(1.0, off / thin / 1000.0)
 
 
+def batch_contract(fn, batch, kind, bare_row=True, lists=True):
+    """A batched query answers with an ndarray of one entry per input row (dtype kind `kind`: b / f / c), in input order: the empty batch
+    gives shape (0,), one row given as (1, d), as a bare 1-d row or as a nested list gives shape (1,) equal to that row's entry in the full
+    batch, and the reversed batch gives the reversed answers.  Returns a list of problems."""
+    import numpy as np
+    probs = []
+    batch = np.asarray(batch, float)
+    try:
+        full = np.asarray(fn(batch.copy()))
+    except Exception as e:  # noqa: BLE001
+        return ["the full batch raised %s" % type(e).__name__]
+    if full.shape != (len(batch),) or full.dtype.kind != kind:
+        probs.append("full batch: shape %s dtype %s (expected (%d,) of kind %s)" % (full.shape, full.dtype, len(batch), kind))
+        return probs
+
+    def same(a, b):
+        return a.shape == b.shape and (np.array_equal(a, b) if kind == "b" else np.allclose(a, b, rtol=1e-12, atol=0, equal_nan=True))
+    for name, arg, want in (("empty batch", batch[:0].copy(), full[:0]), ("one row as (1, d)", batch[:1].copy(), full[:1]),
+                            ("one row as a bare 1-d array", batch[0].copy(), full[:1]) if (batch.ndim == 2 and bare_row) else ("one entry as a 1-element batch", batch[:1].copy(), full[:1]),
+                            ("nested list", batch[:3].tolist(), full[:3]) if lists else ("first three rows", batch[:3].copy(), full[:3]), ("reversed batch", batch[::-1].copy(), full[::-1]),
+                            ("last row alone", batch[-1:].copy(), full[-1:])):
+        try:
+            got = fn(arg)
+        except Exception as e:  # noqa: BLE001
+            probs.append("%s raised %s" % (name, type(e).__name__)); continue
+        if not isinstance(got, np.ndarray) or got.dtype.kind != kind or not same(got, want):
+            probs.append("%s: got %s %s, expected %s" % (name, type(got).__name__, np.asarray(got).tolist() if np.size(got) < 8 else np.shape(got), want.tolist() if want.size < 8 else want.shape))
+    return probs
+
+
 def float32_probe(ctor, V):
     """The same coordinate values given as a float32 array and as a float64 array are the same solid: its measures are evaluated in double
     precision either way.  Returns a list of problems."""
